@@ -2,8 +2,9 @@
  (1) a cross-check that the fresh extraction equals the cached one (same bodies, same block counts),
  (2) a second extraction with -C overflow-checks=off -C debug-assertions=off: every class-O site of the property's
      cone must vanish there (they are profile dependent) and the class-X sites must survive (recorded in the evidence),
- (3) the E4 mutants tagged with the property (selftest/run.py --props Cxx): misses are printed as SELFTEST-MISS and
-     recorded, they are a defect of the checker and never a VIOLATION of the property,
+ (3) the E4 corpus entries tagged with the property (selftest/run.py --props Cxx): breaking mutants that are not
+     reported are printed as SELFTEST-MISS, behaviour-preserving variants that raise an alarm as SELFTEST-FALSE-ALARM;
+     both are recorded, they are defects of the checker and never a VIOLATION of the property,
  (4) the property module's own `thorough(ctx)` hook if it has one."""
 import json
 import os
@@ -50,12 +51,14 @@ def run(ctx, mod):
         res = {}
         for line in r.stdout.splitlines():
             parts = line.split()
-            if len(parts) >= 3 and parts[1] == ctx.prop:
+            if len(parts) >= 3 and ctx.prop in parts[1].split(","):
                 res[parts[0]] = parts[2]
         ck.cov["selftest"] = res
         for k, v in sorted(res.items()):
             if v in ("MISSED", "broken"):
                 print("SELFTEST-MISS: mutant %s of %s was not reported (%s)" % (k, ctx.prop, v))
+            if v == "FALSE-ALARM":
+                print("SELFTEST-FALSE-ALARM: behaviour-preserving variant %s raises an alarm in %s or a sibling check" % (k, ctx.prop))
     # (5) E3 compile-fail witnesses (type-level part of the who-may-write rules)
     wmap = {"C09": ("AreaTypeIsPrivate", "StateIsPrivate", "FetchIsCrateInternal"), "C10": ("AreaTypeIsPrivate", "StateIsPrivate"),
             "C11": ("FinishedIsPrivate", "LoopControlIsPrivate"), "C12": ("HooksArePrivate",), "C04": ("LoopControlIsPrivate",)}
